@@ -589,6 +589,7 @@ def run(repo, tier, outdir):
             "wall_s": round(time.time() - t0, 2),
             "cmd": "cargo +nightly rustc --lib -- -Zunpretty=expanded; python3-vt tools/fwd.py (z3 %s)" % z3.get_version_string(),
             "detail": {"forwarders": len(forwarders), "leaves": len(leaves), "leaves_under_contract": n_under,
+                       "leaf_units": sorted(set(l["contract"][5:] for l in leaf_report if l["contract"].startswith("unit "))),
                        "unverified_leaves": [l["impl"] + "::" + l["fn"] for l in leaf_report if l["contract"] == "unverified leaf"]},
             "assumptions": ["engine F: rustc's -Zunpretty=expanded output is the code that is compiled for this target",
                             "engine F: clone(), & and * preserve the denoted integer; trait method resolution as encoded in fwd.py (receiver type first, then auto-deref)",
